@@ -317,6 +317,36 @@ def run(ck):
         ck.ob(R4, dn.fid, ok, "UTC mode reads the UTC clock (made naive), local mode the local clock"
               if ok else "dtnow() does not select the clock by the utc flag", dn, dn.node)
 
+    R9 = ck.rule('R07.9', "membership in the interval containers the outputs are computed from is the "
+                 "documented rule (time of day: right-open, wrapping at midnight; dates: inclusive, "
+                 "wrapping at New Year; date-time spans: right-open, never wrapping), for one and for "
+                 "several stored ranges (abstract run of __contains__, shared with C13 R13.1)",
+                 'ordering domain', 3)
+    with ck.section('R07.9'):
+        from rules.c13 import _contains_run, CLASSES as _ICLASSES, TI as _TI, _describe as _desc13
+        from sa.absval import weak_orderings3
+        from sa.tables import fold as _fold, Unfoldable as _Unf
+        ords_ = weak_orderings3()
+        for cname_, (kind_, closed_, *_rest) in _ICLASSES.items():
+            ci_ = prog.cls(f"{_TI}:{cname_}")
+            try:
+                flag_ = _fold(prog, prog.module(_TI), prog.class_value(ci_, '_RCLOSED_INTERVAL'))
+            except (_Unf, AttributeError, TypeError):
+                flag_ = None
+            try:
+                bad1_, bad2_, n1_, n2_ = _contains_run(ck, R9, ci_, kind_, flag_, ords_)
+            except AnalysisError as err_:
+                ck.ob(R9, f"{ci_.qual} :: item in interval", False,
+                      f"the membership test could not be interpreted ({err_.reason})", None,
+                      f"edzed/blocklib/timeinterval.py:{ci_.node.lineno}", shape=True)
+                continue
+            cont_ = prog.resolve_method(ci_, '__contains__')
+            okm = not bad1_ and not bad2_
+            ck.ob(R9, f"{ci_.qual} :: item in interval", okm,
+                  f"{kind_} rule on all 13 orderings of one range and all {n2_} combinations of two ranges"
+                  if okm else (bad2_[0] if bad2_ else f"single range, {_desc13(sorted(bad1_)[0])}: "
+                               f"{bad1_[sorted(bad1_)[0]]}"), cont_, cont_.node)
+
     with ck.section('R07.5'):
         # ------------------------------------------------------------------ R07.5
         tdc = prog.cls(TD)
@@ -405,7 +435,8 @@ def run(ck):
             # is interruptible at all is R07.3's business)
             ck.ob(R7, f"{mt.fid} :: no latency estimate in use", True,
                   "no `wait_for(<queue>.get(), <sleep> - <estimate>)`: nothing to decide here", mt, mt.node)
-            return
+            from sa.report import SkipSection
+            raise SkipSection()
         upd = nodes_where(g7, lambda n: isinstance(n.ast, ast.AugAssign) and norm(n.ast.target) == est)
         # the jump test: the test whose true outcome sets the reset flag (flag.OR(...) / flag.set())
         flagname = None
